@@ -206,7 +206,7 @@ def h_legacy(params, env=None):
 
 
 ASSIGN = ["path", "oid", "hash", "sync_hash", "sync_path", "changed", "exists", "size", "mtime", "otype", "ignored", "priority", "corrupt", "uncorrupt",
-          "clear", "setitem"]
+          "clear", "setitem", "split", "split_discard"]
 
 
 def decoded_equals(store, st, tag="t"):
@@ -292,6 +292,13 @@ def h_dirty(params, env=None):
                     s.hash = b"new-hash"
                 elif a == "clear":
                     s.clear()
+                elif a in ("split", "split_discard"):
+                    # what conflict resolution does: the local half becomes an entry of its own and - in the same step, before its
+                    # first commit - may be discarded; a discarded entry stays indexed and revivable, so it needs its row (seed C08-F)
+                    if en[0].oid:
+                        _d, _ds, rep, _rs = st.split(en)
+                        if a == "split_discard":
+                            rep.ignore(IgnoreReason.DISCARDED)
                 elif a == "setitem":
                     other = ents[e.choose("other", len(ents))]
                     if other is not en and other[side].oid:
